@@ -1469,8 +1469,9 @@ class ColangParser:
         if self.next_line and self.next_line["indentation"] > self.current_indentation:
             self._extract_params()
 
-        # Add the meta element if it's missing
-        branch_elements = self.branches[-1]["elements"]
+        # Add the meta element if it's missing. The declarations belong to the flow, also when
+        # they are written inside a nested block: they go to the meta element that leads the flow.
+        branch_elements = self.branches[0]["elements"]
         if len(branch_elements) == 0 or get_first_key(branch_elements[0]) != "meta":
             branch_elements.insert(0, {"meta": {}})
 
